@@ -1,14 +1,14 @@
 """C05 — Optimisation options never change solvability or the optimal objective"""
-from contracts import sw
+from contracts import sw, c05
 
 LEVEL = "other"
 TRUSTED = []
 ASSUMPTIONS = ['documented-invalid option combinations are excluded by a validity predicate written from docs/solver-options-optimizations.md']
-EXPLANATION = ('Proved (PyVC, unbounded): the bound queue used by the fix-via-bounds options sets exactly the requested bounds (C12 units reused here: they carried two of the root causes found, D4 and D23). NOT proved: invariance of solvability/objective under options - a relational whole-model property; decided by the BOUNDED relational sweep on the real API: every class x small universe x each documented flag alone and all pairs, compared with the default run (rc/p_C05.py).')
+EXPLANATION = ('Proved (PyVC, unbounded): the greedy shortcut stores a solution only when the greedy decomposition is admissible for the model (<= k paths, every constraint covered to length x fraction, weights representable) and otherwise leaves the model untouched; the bound queue used by the fix-via-bounds options sets exactly the requested bounds (C12 units reused here: they carried two of the root causes found, D4 and D23). NOT proved: invariance of solvability/objective under options - a relational whole-model property; decided by the BOUNDED relational sweep on the real API: every class x small universe x each documented flag alone and all pairs, compared with the default run (rc/p_C05.py).')
 
 
 def units(tier):
-    return [u for u in sw.all_units() if any(k in u.name for k in ("_apply_pending", "queue_", "optimize", "fix_variable"))]
+    return [u for u in sw.all_units() if any(k in u.name for k in ("_apply_pending", "queue_", "optimize", "fix_variable"))] + c05.all_units()
 
 
 def bounded(tier, seed):
